@@ -373,6 +373,7 @@ func build(c *Case) (*scenario, error) {
 
 		switch c.Op {
 		case "acquire", "acquire-auth":
+			s.privErr = true // (a privilege change that times out: timeout or privilege class)
 			s.op = func([]util.Option) (string, error) { return "", d.AcquirePriv("configuration") }
 		case "acquire-down":
 			// the way down: from the configuration level to exec ("end", "disable")
@@ -417,6 +418,7 @@ func build(c *Case) (*scenario, error) {
 			s.wantResult = ""
 		case "nconfigs":
 			s.perOp = true
+			s.privErr = true // (an implicit privilege change that fails may be reported as a privilege error)
 			s.op = func(o []util.Option) (string, error) {
 				m, e := d.SendConfigs([]string{c.Cmd}, o...)
 				if e != nil {
